@@ -85,6 +85,7 @@ func c02Run(u *Unit) {
 	u.Scenario(name, sp, opts, func(sc *Scen) {
 		s := sc.S
 		newDualAck(sc, "C02")
+		s.Start()
 		if !waitConverged(sc, 3*time.Minute) {
 			sc.Inconclusive("cluster did not converge before the fault: " + s.CheckCanonical(nil).Why)
 			return
@@ -154,8 +155,8 @@ func c02Run(u *Unit) {
 			heal = func() { s.CutZK(replica, false) }
 		case "zk_outage_all":
 			target = "*"
-			s.ZK.Outage(true)
-			heal = func() { s.ZK.Outage(false) }
+			s.ZKOutage(true)
+			heal = func() { s.ZKOutage(false) }
 		case "switch_to":
 			target = replica
 			fileSwitch(sc, "", replica, "manual", "switchover", "operator")
